@@ -171,10 +171,16 @@ class C(Check):
             self.violation(dict(clause='exception', route=route, ty=st.ty),
                            dict(operands=str(operands), msg=st.msg, program=[gen.recipe_str(s) for s in prog]))
             return
+        if st.st == 'assert':
+            # the library's own canonical-form assertion fired while building the result of exact arithmetic on valid
+            # operands: the result is not in normal form (release builds return it silently)
+            self.count('assert-hook')
+            ev = (st.asserts or [{}])[0]
+            self.violation(dict(clause='normal-form-assertion', route=route, where='%s:%s' % (ev.get('file'), ev.get('func'))),
+                           dict(operands=str(operands), expected=str(want), assertion=ev, program=[gen.recipe_str(s) for s in prog], config='asan'))
+            return
         if st.st != 'ok':
             self.inconclusive += 1
-            if st.st == 'assert':
-                self.count('assert-hook')
             return
         t = st.v['t']
         probs = judge(t, want)
